@@ -309,6 +309,10 @@ func runC32(c *Ctx) {
 	if m == nil {
 		return
 	}
+	// the aborted-transaction lookup of handleFetch (shared with C05 clause 5):
+	// read_committed fetches return exactly the committed data only if every
+	// overlapping aborted transaction is reported
+	c05kfakeAbortedIndex(c)
 	e := &c32env{c: c, m: m, funcs: m.FuncsIn(c32pkg), keys: c32keys{}}
 	e.hwm = m.Field(c32pkg, "partData", "highWatermark")
 	e.lso = m.Field(c32pkg, "partData", "lastStableOffset")
